@@ -132,13 +132,16 @@ func (g *treeGen) genModule(dir, mod string, unreadableKinds []string) ModSpec {
 		rel := "types/" + strings.Join(fileSegs, "/") + ".pp"
 		full := implied(segs)
 		name := canon(full)
-		c := &Content{Marker: g.nextMarker(), Pad: r.Intn(4)}
+		c := &Content{Marker: g.nextMarker(), Pad: r.Intn(4), Pre: r.Intn(nPre)}
 		f := FileSpec{Rel: rel, Kind: "file", Content: c}
 		switch x := r.Intn(100); {
 		case x < 46:
 			c.Class, c.Declared = "good", name
 			if r.Chance(1, 5) {
 				c.Declared = mixDeclared(r, name)
+			}
+			if r.Chance(1, 16) {
+				c.Enc = []string{"bom", "crlf"}[r.Intn(2)]
 			}
 		case x < 54: // a good file that refers to other names (possibly cyclic, absent or bad)
 			c.Class, c.Declared = "good", name
@@ -198,7 +201,7 @@ func (g *treeGen) genModule(dir, mod string, unreadableKinds []string) ModSpec {
 	}
 	// a module's type set
 	if !global && r.Chance(1, 2) {
-		c := &Content{Marker: g.nextMarker(), Pad: r.Intn(3)}
+		c := &Content{Marker: g.nextMarker(), Pad: r.Intn(3), Pre: r.Intn(nPre)}
 		f := FileSpec{Rel: "types/init_typeset.pp", Kind: "file", Content: c}
 		switch x := r.Intn(10); {
 		case x < 6:
@@ -465,7 +468,126 @@ func genRandomCase(r *lib.Rng, mode000 bool) Case {
 		nops += 8 // what a loader answers the second and third time matters here
 	}
 	genOps(r, &cs, g.names, nops)
+	// further generations at the same path (one case in seven): the directory is written again with a changed
+	// layout, new loaders; the names of all generations are looked up in each
+	if r.Chance(1, 7) {
+		prev := &cs
+		for k := 1 + r.Intn(2); k > 0; k-- {
+			nx := g.nextGeneration(prev, uk)
+			genOps(r, &nx, g.names, 6+r.Intn(14))
+			cs.Then = append(cs.Then, nx)
+			prev = &cs.Then[len(cs.Then)-1]
+		}
+		cs.Family += ".regen"
+	}
 	return cs
+}
+
+// nextGeneration: the same loader roots (directories, module names, topology) with a changed content: of the files
+// of the generation before some stay as they are, some get another content at the same path (a repaired file, a
+// file that became misnamed or malformed, another definition, a TypeSet with other members), some are gone; new
+// files appear.
+func (g *treeGen) nextGeneration(prev *Case, uk []string) Case {
+	r := g.r
+	nx := Case{Family: prev.Family, Top: prev.Top}
+	for mi := range prev.Mods {
+		pm := &prev.Mods[mi]
+		if pm.IsFile {
+			nx.Mods = append(nx.Mods, *pm)
+			continue
+		}
+		var m ModSpec
+		if r.Chance(1, 3) {
+			m = g.genModule(pm.Dir, pm.Name, uk) // new files (the pools are small: many land on a path used before)
+		} else {
+			m = ModSpec{Dir: pm.Dir, Name: pm.Name}
+		}
+		v := &modView{m: pm}
+		for fi := range pm.Files {
+			f := pm.Files[fi]
+			if r.Chance(1, 6) {
+				continue // gone
+			}
+			if f.Content != nil && f.Kind == "file" && r.Chance(2, 3) {
+				f.Content = g.alter(f.Content, v.nameOfFile(&f), !isGlobalMod(pm) && f.Rel == "types/init_typeset.pp")
+			}
+			mergeFile(&m, f)
+		}
+		nx.Mods = append(nx.Mods, m)
+	}
+	return nx
+}
+
+func mergeFile(m *ModSpec, f FileSpec) {
+	for _, e := range m.Files {
+		if e.Rel == f.Rel || strings.HasPrefix(f.Rel, e.Rel+"/") || strings.HasPrefix(e.Rel, f.Rel+"/") {
+			return
+		}
+	}
+	m.Files = append(m.Files, f)
+}
+
+// alter: another content for the same path (implied: the lower-case name the path stands for, "" for a stray file)
+func (g *treeGen) alter(c *Content, implied string, initTS bool) *Content {
+	r := g.r
+	n := *c
+	n.Refs = append([]string{}, c.Refs...)
+	n.Members = append([]string{}, c.Members...)
+	n.Enc = ""
+	name := "Stray"
+	if implied != "" && validName(implied) {
+		name = canon(strings.Split(implied, "::"))
+	}
+	switch x := r.Intn(12); {
+	case x < 3: // the same kind of file with another definition
+		n.Marker = g.nextMarker()
+		if n.Class == "malformed" {
+			n.Tmpl, n.Pad, n.Pre = r.Intn(nMalformed), r.Intn(4), r.Intn(nPre)
+		}
+	case x < 6: // repaired / correctly named now
+		n.Marker = g.nextMarker()
+		n.Class, n.Declared = "good", name
+		if initTS {
+			n.Class, n.Members = "typeset", []string{capSeg(g.pick(segPool))}
+		} else if c.Class == "typeset" && r.Bool() {
+			n.Class = "typeset"
+		}
+		n.Pad = r.Intn(3)
+	case x < 8: // misnamed now
+		n.Marker = g.nextMarker()
+		if n.Class != "typeset" {
+			n.Class = "good"
+		}
+		n.Declared = name + "x"
+		n.Pad, n.Pre = r.Intn(4), r.Intn(nPre)
+	case x < 10: // malformed now
+		n.Marker = g.nextMarker()
+		n.Class, n.Declared, n.Tmpl, n.Pad, n.Pre = "malformed", name, r.Intn(nMalformed), r.Intn(4), r.Intn(nPre)
+	case x < 11: // a TypeSet with other members
+		n.Marker = g.nextMarker()
+		n.Class, n.Declared = "typeset", name
+		if len(n.Members) > 0 && r.Bool() {
+			n.Members = n.Members[1:]
+		}
+		mn := capSeg(g.pick(segPool))
+		dup := false
+		for _, e := range n.Members {
+			dup = dup || e == mn
+		}
+		if !dup {
+			n.Members = append(n.Members, mn)
+			g.names = append(g.names, name+"::"+mn)
+		}
+	default:
+		n.Class, n.Tmpl = "nodef", r.Intn(nNoDef)
+	}
+	if n.Class != "good" && n.Class != "anon" {
+		n.Refs = nil
+	}
+	if n.Class != "typeset" {
+		n.Members = nil
+	}
+	return &n
 }
 
 // ------------------------------------------------------------------------------------------------
@@ -571,6 +693,8 @@ func exFile(mod string, rel, kind string, marker int) FileSpec {
 		c.Class = "anon"
 	case "ts1":
 		c.Class, c.Declared, c.Members = "typeset", name, []string{"B"}
+	case "tsa":
+		c.Class, c.Declared, c.Members = "typeset", name, []string{"A"}
 	case "ts0":
 		c.Class, c.Declared = "typeset", name
 	case "malformed":
@@ -624,6 +748,63 @@ func genExhaustive(each func(Case)) {
 						each(Case{Family: "exhaustive.2files", Top: "single",
 							Mods: []ModSpec{{Dir: dir, Name: mod, Files: []FileSpec{exFile(mod, p, k1, 10), exFile(mod, q, k2, 20)}}}, Ops: exOps(idx)})
 					}
+				}
+			}
+		}
+	}
+}
+
+// ------------------------------------------------------------------------------------------------
+// bounded-exhaustive family for generations: one loader root with one definition path; every ordered pair of
+// contents (absent included) for that path in two generations at the same directory path, in one process; every
+// third pair has a third generation that returns to the first content (as another definition).
+
+var rgKinds = []string{"absent", "good", "wrong", "anon", "ts1", "tsa", "malformed", "nodef", "dangling"}
+var rgNames = []string{"A", "a", "A::B", "A::A", "M::A", "M::A::B", "M::A::A", "M", "M::B"}
+
+func rgOps(rot int) []Op {
+	var ops []Op
+	n := len(rgNames)
+	for ctx := -1; ctx < 1; ctx++ {
+		for i := 0; i < n; i++ {
+			ops = append(ops, Op{Op: "load", Ctx: ctx, Name: rgNames[(i+rot)%n]})
+		}
+	}
+	for _, nm := range rgNames {
+		ops = append(ops, Op{Op: "has", Mod: 0, Name: nm})
+	}
+	return append(ops, Op{Op: "discover", Mod: 0})
+}
+
+func genExhaustiveRegen(each func(Case)) {
+	idx := 0
+	for _, mod := range []string{"", "m"} {
+		dir := "root"
+		paths := []string{"types/a.pp"}
+		if mod != "" {
+			dir = mod
+			paths = append(paths, "types/init_typeset.pp")
+		}
+		mk := func(p, kind string, marker int) Case {
+			c := Case{Family: "exhaustive.regen", Top: "single", Mods: []ModSpec{{Dir: dir, Name: mod}}, Ops: rgOps(marker + idx)}
+			if kind != "absent" {
+				c.Mods[0].Files = []FileSpec{exFile(mod, p, kind, marker)}
+			}
+			return c
+		}
+		for _, p := range paths {
+			for _, k1 := range rgKinds {
+				for _, k2 := range rgKinds {
+					if k1 == "absent" && k2 == "absent" {
+						continue
+					}
+					idx++
+					c := mk(p, k1, 10)
+					c.Then = []Case{mk(p, k2, 40)}
+					if idx%3 == 0 {
+						c.Then = append(c.Then, mk(p, k1, 70))
+					}
+					each(c)
 				}
 			}
 		}
@@ -760,6 +941,90 @@ func corpus() []Case {
 		{Dir: "env", Name: "", Files: []FileSpec{good("types/top.pp", "Top", 50), {Rel: "types/bad.pp", Kind: "file", Content: &Content{Class: "malformed", Declared: "Bad", Tmpl: 1, Marker: 60}}}}},
 		Ops: append(append(loads(-1, "Other::Set::One", "Other::Set::One", "Mymod::Foo", "Other::Set::Two", "Top", "Bad", "Bad", "Mymod::Wrong", "Mymod::Wrong"),
 			loads(0, "Other::Set::Two", "Other::X", "Other::Set", "other::set::one", "Top", "Nope")...), Op{Op: "discover", Mod: 0}, Op{Op: "has", Mod: 1, Name: "Top"})})
+	// what stands in front of the first token of a file (comments, blank lines, white-space-only lines, in every
+	// order), and encoding artefacts (byte order mark, CR LF): the reported line is the line in the file
+	for _, mod := range []string{"", "pm"} {
+		for style := 0; style < nPre; style++ {
+			for padn := 0; padn <= 3; padn++ {
+				if padn == 0 && style > 0 {
+					continue
+				}
+				q := func(n string) string {
+					if mod == "" {
+						return n
+					}
+					return capSeg(mod) + "::" + n
+				}
+				ct := func(c Content) *Content {
+					c.Pad, c.Pre = padn, style
+					return &c
+				}
+				var fs []FileSpec
+				var names []string
+				for t := 0; t < nMalformed; t++ {
+					fs = append(fs, FileSpec{Rel: fmt.Sprintf("types/m%d.pp", t), Kind: "file", Content: ct(Content{Class: "malformed", Declared: q(fmt.Sprintf("M%d", t)), Tmpl: t, Marker: 10 * (t + 1)})})
+					names = append(names, q(fmt.Sprintf("M%d", t)))
+				}
+				for t := 1; t < nNoDef; t++ {
+					fs = append(fs, FileSpec{Rel: fmt.Sprintf("types/n%d.pp", t), Kind: "file", Content: ct(Content{Class: "nodef", Tmpl: t, Marker: 100 + 10*t})})
+					names = append(names, q(fmt.Sprintf("N%d", t)))
+				}
+				fs = append(fs,
+					FileSpec{Rel: "types/ns/w.pp", Kind: "file", Content: ct(Content{Class: "good", Declared: q("Ns::Wx"), Marker: 200})},
+					FileSpec{Rel: "types/ns/wts.pp", Kind: "file", Content: ct(Content{Class: "typeset", Declared: q("Ns::Other"), Members: []string{"One"}, Marker: 210})},
+					FileSpec{Rel: "types/g.pp", Kind: "file", Content: ct(Content{Class: "good", Declared: q("G"), Marker: 220})},
+					FileSpec{Rel: "types/ts.pp", Kind: "file", Content: ct(Content{Class: "malformed", Declared: q("Ts"), Tmpl: style, Marker: 230})},
+					FileSpec{Rel: "types/sub/ts2.pp", Kind: "file", Content: ct(Content{Class: "typeset", Declared: q("Sub::Ts2"), Members: []string{"One", "Two"}, Marker: 240})},
+					FileSpec{Rel: "types/bom.pp", Kind: "file", Content: ct(Content{Class: "good", Declared: q("Bom"), Marker: 250, Enc: "bom"})},
+					FileSpec{Rel: "types/crlf.pp", Kind: "file", Content: ct(Content{Class: "good", Declared: q("Crlf"), Marker: 260, Enc: "crlf"})},
+					FileSpec{Rel: "types/crlfts.pp", Kind: "file", Content: ct(Content{Class: "typeset", Declared: q("Crlfts"), Members: []string{"One"}, Marker: 270, Enc: "crlf"})},
+					FileSpec{Rel: "types/bomw.pp", Kind: "file", Content: ct(Content{Class: "good", Declared: q("Bomwx"), Marker: 280, Enc: "bom"})})
+				names = append(names, q("Ns::W"), q("Ns::Wts"), q("G"), q("Ts::One"), q("Ts"), q("Sub::Ts2::Two"), q("Bom"), q("Crlf"), q("Crlfts::One"), q("Bomw"))
+				dir := "root"
+				if mod != "" {
+					dir = mod
+				}
+				add(Case{Family: fmt.Sprintf("preamble-%d-%d", style, padn), Top: "single", Mods: []ModSpec{{Dir: dir, Name: mod, Files: fs}},
+					Ops: append(loads(-1, names...), loads(0, names[0], names[3], strings.ToLower(names[len(names)-7]))...)})
+			}
+		}
+	}
+	// generations: the directory of the case is written again at the same path with another content and new loaders
+	// are created over it in the same process (a repaired file, a file that became misnamed, a file that is gone, a
+	// new file, other definitions at the same paths, a TypeSet with other members); then back again
+	for _, top := range []string{"dep", "chain", "single"} {
+		layout := func(gen int) Case {
+			mk := 100 * gen
+			env := ModSpec{Dir: "env", Name: ""}
+			moda := ModSpec{Dir: "moda", Name: "moda"}
+			if gen%2 == 1 {
+				env.Files = []FileSpec{good("types/top.pp", "Top", mk+10),
+					{Rel: "types/fixed.pp", Kind: "file", Content: &Content{Class: "malformed", Declared: "Fixed", Tmpl: 0, Pad: 2, Pre: 2, Marker: mk + 20}},
+					good("types/renamed.pp", "Renamed", mk+30), good("types/gone.pp", "Gone", mk+40),
+					tsFile("types/shapes.pp", "Shapes", mk+50, "Circle", "Square")}
+				moda.Files = []FileSpec{good("types/thing.pp", "Moda::Thing", mk+60), tsFile("types/init_typeset.pp", "Moda", mk+70, "Mem")}
+			} else {
+				env.Files = []FileSpec{good("types/top.pp", "Top", mk+10), good("types/fixed.pp", "Fixed", mk+20),
+					{Rel: "types/renamed.pp", Kind: "file", Content: &Content{Class: "good", Declared: "Other", Pad: 2, Pre: 1, Marker: mk + 30}},
+					good("types/fresh.pp", "Fresh", mk+40),
+					tsFile("types/shapes.pp", "Shapes", mk+50, "Square", "Oval")}
+				moda.Files = []FileSpec{{Rel: "types/thing.pp", Kind: "file", Content: &Content{Class: "malformed", Declared: "Moda::Thing", Tmpl: 4, Pad: 1, Pre: 1, Marker: mk + 60}},
+					tsFile("types/init_typeset.pp", "Moda", mk+70, "Extra")}
+			}
+			names := []string{"Top", "Fixed", "Renamed", "Gone", "Fresh", "Shapes::Circle", "Shapes::Oval", "Shapes::Square", "Shapes", "Moda::Thing", "Moda::Mem", "Moda::Extra", "Moda", "top"}
+			c := Case{Family: "regen-" + top, Top: top, Mods: []ModSpec{moda, env}}
+			if top == "single" {
+				c.Mods = []ModSpec{env}
+				names = names[:9]
+			}
+			c.Ops = append(loads(-1, names...), loads(0, names...)...)
+			c.Ops = append(c.Ops, Op{Op: "has", Mod: 0, Name: "Moda::Thing"}, Op{Op: "has", Mod: len(c.Mods) - 1, Name: "Gone"}, Op{Op: "discover", Mod: len(c.Mods) - 1})
+			return c
+		}
+		c := layout(1)
+		c.Then = []Case{layout(2), layout(3)}
+		add(c)
+	}
 	add(Case{Family: "derivation", Top: "dep", Mods: []ModSpec{{Dir: "mymod", Name: "mymod"}, {Dir: "globalroot", Name: ""}}, Ops: dops})
 	return cs
 }
